@@ -38,7 +38,7 @@ GNAMES = {"policy": "GPolicy", "prefix": "GPrefix", "community": "GCommunity", "
 # input generation
 
 
-def entities(rng):
+def entities(rng, tame=False):
     def members(kind, n):
         if kind == "LARGE":
             return [f"{rng.randint(1, 9)}:{rng.randint(0, 9)}:{rng.randint(0, 9)}" for _ in range(n)]
@@ -51,8 +51,8 @@ def entities(rng):
                         ("SOO", ["S1", "S2", "S3"])):
         regex_kind = rng.random() < 0.25          # united lists need one use_regex flag: correlate by kind
         for nm in names:
-            use_regex = regex_kind if rng.random() < 0.85 else not regex_kind
-            n = 1 if (use_regex and rng.random() < 0.8) else rng.randint(1, 3)
+            use_regex = regex_kind if (tame or rng.random() < 0.85) else not regex_kind
+            n = 1 if (use_regex and (tame or rng.random() < 0.8)) else rng.randint(1, 3)
             mem = members(kind, n)
             if use_regex:
                 mem = [m.replace(":", ":.") for m in mem]
@@ -202,8 +202,81 @@ def gen_calls(rng):
     return calls
 
 
-def gen_program(rng, vendor):
-    cl, pl, af, rd = entities(rng)
+# constructs every back-end accepts (used for the mostly-valid stream)
+TAME_COND = {
+    "huawei": ["community", "large_community", "extcommunity_rt", "extcommunity_soo", "rd", "match_v4", "match_v6",
+               "as_path_filter", "as_path_length", "interface", "protocol", "metric"],
+    "arista": ["community", "large_community", "extcommunity_rt", "extcommunity_soo", "match_v4", "match_v6",
+               "as_path_filter", "as_path_length", "interface", "protocol", "metric"],
+    "cumulus": ["community", "large_community", "extcommunity_rt", "extcommunity_soo", "match_v4", "match_v6",
+                "as_path_filter", "interface", "protocol", "metric"],
+}
+HW_SINGLE = {"community": "has", "large_community": "has_any", "extcommunity_rt": "has", "extcommunity_soo": "has_any"}
+TAME_COMM = {
+    "huawei": {"community": ["add", "remove", "set"], "large_community": ["add", "remove", "set"],
+               "extcommunity": ["add", "setrt"], "extcommunity_rt": ["add", "remove"], "extcommunity_soo": ["add"]},
+    "arista": {"community": ["add", "remove", "set"], "large_community": ["add", "remove", "set"],
+               "extcommunity": ["add", "remove", "set"], "extcommunity_rt": ["add", "remove"],
+               "extcommunity_soo": ["add", "remove"]},
+    "cumulus": {"community": ["add", "remove", "set"], "large_community": ["add"], "extcommunity": ["set"],
+                "extcommunity_rt": ["add"], "extcommunity_soo": ["add"]},
+}
+TAME_ASPATH = {"huawei": ["prepend", "delete", "set"], "arista": ["prepend", "set", "expand_last_as"],
+               "cumulus": ["prepend", "delete", "set", "expand_last_as"]}
+
+
+def gen_tame_statement(rng, vendor):
+    fields = rng.sample(TAME_COND[vendor], rng.choice([1, 2, 2, 3, 4]))
+    conds = []
+    for f in fields:
+        c = gen_cond(rng, f)
+        if vendor == "huawei" and f in HW_SINGLE and c[1] == HW_SINGLE[f]:
+            c[2] = c[2][:1]
+        if f == "rd":
+            c[2] = c[2][:1]
+        if f == "as_path_length" and vendor == "arista" and rng.random() < 0.3:
+            conds += [["as_path_length", "ge", 1], ["as_path_length", "le", 7]]
+            continue
+        conds.append(c)
+    calls = []
+    kinds = rng.sample(["community", "large_community", "extcommunity", "extcommunity_rt", "extcommunity_soo",
+                        "as_path", "next_hop", "metric", "local_pref", "origin", "tag", "metric_type"],
+                       rng.choice([1, 2, 2, 3, 4]))
+    for k in kinds:
+        if k in POOL:
+            o = rng.choice(TAME_COMM[vendor][k])
+            if o == "setrt":
+                calls.append([k, "set", rng.sample(["R1", "R2", "R3"], rng.choice([1, 2]))])
+            else:
+                calls.append([k, o, rng.sample(POOL[k], rng.choice([1, 1, 2]))])
+        elif k == "as_path":
+            o = rng.choice(TAME_ASPATH[vendor])
+            calls.append(["as_path", o, rng.randint(1, 4)] if o == "expand_last_as"
+                         else ["as_path", o, [rng.choice([65000, "65001", 123]) for _ in range(rng.choice([1, 2]))]])
+        elif k == "next_hop":
+            t = rng.choice(["self", "peer", "discard", "ipv4_addr", "ipv6_addr", "mapped_ipv4"])
+            calls.append(["next_hop", t] + ({"ipv4_addr": ["192.0.2.1"], "ipv6_addr": ["2001:db8::1"],
+                                             "mapped_ipv4": ["192.0.2.2"]}.get(t, [])))
+        elif k == "metric":
+            calls += rng.choice([[["set_metric", 10]], [["add_metric", 5]]])
+        else:
+            calls.append({"local_pref": ["set_local_pref", 200], "origin": ["set_origin", "igp"],
+                          "tag": ["set_tag", 3], "metric_type": ["set_metric_type", "type-2"]}[k])
+    calls.append([rng.choice(["allow", "deny", "next"])])
+    return conds, calls
+
+
+def gen_program(rng, vendor, tame=False):
+    cl, pl, af, rd = entities(rng, tame)
+    if tame:
+        policies = []
+        for pi in range(rng.choice([1, 2])):
+            sts = []
+            for si in range(rng.choice([1, 2, 3])):
+                conds, calls = gen_tame_statement(rng, vendor)
+                sts.append({"number": (si + 1) * 10, "name": f"n{si}", "conds": conds, "calls": calls})
+            policies.append({"name": f"pol{pi}", "statements": sts})
+        return {"vendor": vendor, "clists": cl, "plists": pl, "aspaths": af, "rdfilters": rd, "policies": policies}
     policies = []
     for pi in range(rng.choice([1, 1, 2])):
         sts = []
@@ -287,9 +360,11 @@ def gen_cases(ctx):
     n_exh = len(cases)
     n_rand = 9000 if ctx.thorough else 900
     for i in range(n_rand):
-        cases.append(gen_program(rng, VENDORS[i % 3]))
+        cases.append(gen_program(rng, VENDORS[i % 3], tame=(i % 2 == 0)))
     ctx.coverage["input_distribution"] = {
         "exhaustive_single_item_programs": n_exh, "random_programs": n_rand,
+        "random_streams": "half mostly-valid (constructs the vendor back-end accepts), half unrestricted "
+                          "(near-miss: unsupported operators/actions, missing or duplicate numbers, next_policy)",
         "exhaustive_scope": "every builder shape of each action (set/add/remove combinations per community field, "
                             "as_path op combinations, six next_hop targets, simple setters) and of each condition "
                             "(has/has_any over 1..3 lists, or_longer bounds, as_path_length ops) x 3 vendors",
